@@ -37,6 +37,7 @@ func genTimeout(r *rng, n int, tier string, emit func(string)) {
 	emit("to 5 stall=none:forever n=25 fill=0 pw=2 hw=1")
 	emit("to 1 stall=leaf:forever n=80 fill=1 pw=1 hw=1")
 	emit("to 1 stall=inner:send n=2 fill=0 pw=1 hw=1")
+	emit("to 1 stall=leaf+handler:forever n=4 fill=0 pw=2 hw=2")
 	if tier == "thorough" {
 		for i := 0; i < n; i++ {
 			role := r.pickS("root", "inner", "leaf", "handler")
@@ -47,6 +48,8 @@ func genTimeout(r *rng, n int, tier string, emit func(string)) {
 			emit(fmt.Sprintf("to %d stall=%s:%s n=%d fill=0 pw=%d hw=%d", r.pick(1, 2, 6), role, r.pickS("forever", "long", "send"), r.intn(room)+1, pw, hw))
 		}
 		emit("to 2 stall=inner:forever n=120 fill=1 pw=2 hw=1")
+		emit("to 2 stall=inner+handler:long n=3 fill=0 pw=2 hw=1")
+		emit("to 1 stall=root+handler:forever n=2 fill=0 pw=3 hw=2")
 		emit("to 3 stall=none:forever n=40 fill=0 pw=1 hw=1")
 	}
 }
@@ -86,17 +89,21 @@ func execTimeout(input string) string {
 	root, inner, leaf, handler := mk(0, "sync"), mk(1, "sync"), mk(2, "sync"), mk(3, "sync")
 	if role == "handler" {
 		root.wPass, root.wError = 0, 100 // every event fails at the root and goes to the handler
+	} else if strings.Contains(role, "handler") {
+		root.wPass, root.wError = 50, 50 // several nodes stall: half of the events go down, half to the handler
 	}
 	gate := make(chan struct{})
-	switch role {
-	case "root":
-		root.gate = gate
-	case "inner":
-		inner.gate = gate
-	case "leaf":
-		leaf.gate = gate
-	case "handler":
-		handler.gate = gate
+	for _, r1 := range strings.Split(role, "+") {
+		switch r1 {
+		case "root":
+			root.gate = gate
+		case "inner":
+			inner.gate = gate
+		case "leaf":
+			leaf.gate = gate
+		case "handler":
+			handler.gate = gate
+		}
 	}
 	specs := []*nodeSpec{root, inner, leaf, handler}
 	setScenario(specs)
